@@ -485,6 +485,14 @@ impl<'a> Ctx<'a> {
             self.rep.probes.inc("cross_family_wildcard_unjudged");
             return;
         }
+        if self.may_self_connect(h, dst) {
+            self.rep.probes.inc("self_connect_avoided");
+            self.log.ev(format!("#{i} tconn skipped (could connect to itself)"));
+            return;
+        }
+        // the hold must stay inside the retransmit budget of both ends
+        let t = self.sc.cfg.retx_threshold as usize;
+        let synack_hold = if self.sc.cfg.retx_max >= 3 { (synack_hold as usize).min(t + 1) as u8 } else { 0 };
         let mut fut: Option<ConnFut> = Some(Box::pin(TcpStream::connect(dst)));
         let flag = WakeFlag::new();
         let cap = self.sc.cfg.give_up_rounds() as usize + synack_hold as usize + 6;
@@ -619,6 +627,17 @@ impl<'a> Ctx<'a> {
             }
         }
         self.settle(8);
+    }
+
+    /// A connect to an ephemeral port that the destination host's allocator may hand to one of its
+    /// own connecting sockets at the same time (to the connecting socket itself when the
+    /// destination is local: TCP self-connect; to a concurrent probe otherwise) is a simultaneous
+    /// open; the property does not speak about it, so such attempts are not made.
+    fn may_self_connect(&self, h: usize, dst: SocketAddr) -> bool {
+        match self.m.dest_host(h, dst.ip()) {
+            Some(dh) => in_eph(dst.port()) && !self.m.port_in_use(dh, Proto::Tcp, dst.is_ipv4(), dst.port()),
+            None => false,
+        }
     }
 
     /// Checks on the client end of a fresh connection: peer is the destination, the local address
@@ -895,6 +914,10 @@ impl<'a> Ctx<'a> {
                     let dst = SocketAddr::new(*ip, *p);
                     let exp = self.m.route_syn(h, dst);
                     if exp == SynExp::Unjudged {
+                        continue;
+                    }
+                    if self.may_self_connect(h, dst) {
+                        self.rep.probes.inc("self_connect_avoided");
                         continue;
                     }
                     probes.push(TP { h, dst, exp, fut: Some(Box::pin(TcpStream::connect(dst))), flag: WakeFlag::new(), res: None });
@@ -1189,7 +1212,7 @@ impl Property for C17 {
         let nh = rng.usize(1, 3);
         let hosts: Vec<Vec<String>> = (0..nh).map(|h| host_addrs(rng, h)).collect();
         let unknown = vec!["10.9.9.9".to_string(), "fd00::9:9".to_string()];
-        let cfg = NetCfg { retx_threshold: rng.range(2, 3) as u32, retx_max: rng.range(1, 2) as u32, backlog: 64 };
+        let cfg = NetCfg { retx_threshold: rng.range(2, 3) as u32, retx_max: rng.range(1, 4) as u32, backlog: 64 };
         let exhaustion = tier == Tier::Thorough && rng.chance(1, 400);
         let mut steps = Vec::new();
         let mut shadow: Vec<Shadow> = Vec::new();
@@ -1247,7 +1270,10 @@ impl Property for C17 {
                     };
                     let id = next_id;
                     next_id += 1;
-                    let synack_hold = if rng.chance(1, 4) { rng.range(1, cfg.retx_threshold as u64 + 1) as u8 } else { 0 };
+                    // a held SYN-ACK makes both ends retransmit; the kernel carries the handshake's
+                    // retransmit count into the established phase (C06's subject), so holds are only
+                    // generated with a retransmit budget that leaves room afterwards
+                    let synack_hold = if cfg.retx_max >= 3 && rng.chance(1, 3) { rng.range(1, cfg.retx_threshold as u64 + 1) as u8 } else { 0 };
                     shadow.push(Shadow { id, host, proto: Proto::Tcp, ip: ip.clone(), port: PortRef::Of(id), conn: true });
                     steps.push(Step::TcpConnect { id, host, ip, port, synack_hold });
                 }
